@@ -719,6 +719,8 @@ def to_xlsx(spec, path, stored, overrides=None):
     if spec.get('iter'):
         wbx.append(f'<calcPr calcId="1" iterate="1" iterateCount="{spec["iter"][0]}" '
                    f'iterateDelta="{spec["iter"][1]!r}"/>')
+    else:
+        wbx.append('<calcPr calcId="1"/>')     # files written by Excel always carry one
     wbx.append('</workbook>')
     z.writestr('xl/workbook.xml', ''.join(wbx))
     z.writestr('xl/_rels/workbook.xml.rels',
